@@ -4,6 +4,7 @@ mod model;
 mod infra;
 mod langs;
 mod ordspell;
+mod sched;
 mod spell;
 mod stream;
 mod vocab;
@@ -48,6 +49,14 @@ fn main() {
         "C01" => checks::c01::run(tier),
         "C12" => checks::c12::run(tier),
         "C06" => checks::c06::run(tier),
+        "C14" => checks::c14::run(tier),
+        "silent-child" => checks::c14::silent_child(),
+        "C02" => checks::c02::run(tier),
+        "C10" => checks::c10::run(tier),
+        "C17" => checks::c17::run(tier),
+        "C18" => checks::c18::run(tier),
+        "C11" => checks::c11::run(tier),
+        "C13" => checks::c13::run(tier),
         "C08" => checks::c08::run(tier),
         "C16" => checks::c16::run(tier),
         "C05" => checks::c05::run(tier),
